@@ -219,6 +219,8 @@ package fscache
 //@   loop 4 trace_step !isfile && !isdir : ^ISFILE ISDIR $
 //@   loop 4 trace_step mkerr != nil || cperr != nil || treeerr != nil : ^$
 //@   ensures err == nil ==> foralls(k, has(c.changes.remove, k) ==> visitedIn(1, k)) && foralls(k, has(c.changes.removeAll, k) ==> visitedIn(2, k)) && foralls(k, has(c.changes.mkdirAll, k) ==> visitedIn(3, k)) && foralls(k, has(c.changes.write, k) ==> visitedIn(4, k))
+// Commit does not touch the journals: a later Commit replays the same entries
+//@   ensures foralls(k, has(c.changes.remove, k) == old(has(c.changes.remove, k)) && has(c.changes.removeAll, k) == old(has(c.changes.removeAll, k)) && has(c.changes.write, k) == old(has(c.changes.write, k)) && has(c.changes.mkdirAll, k) == old(has(c.changes.mkdirAll, k)))
 //@   ensures rmerr != nil ==> err == rmerr
 //@   ensures rmallerr != nil ==> err == rmallerr
 //@   ensures mkerr != nil ==> err == mkerr
